@@ -452,6 +452,10 @@ class CarbonClientFactory(with_metaclass(PluginRegistrar, ReconnectingClientFact
       for metric, datapoint in metrics:
           state.events.metricGenerated(metric, datapoint)
       self.queue.clear()
+      # The queue is empty now. If it had been reported full, report the space
+      # as well: nothing will ever be sent from it to do so.
+      if self.queueFull.called and not self.queueHasSpace.called:
+        self.queueHasSpace.callback(self.queueSize)
 
   def disconnect(self):
     self.queueEmpty.addCallbacks(lambda result: self.stopConnecting(), log.err)
